@@ -1,7 +1,7 @@
 (* Props/C06_rtubin.v — C06, RTU / binary half: chunking independence.  ONLY statements. *)
 From PM.theories Require Import Base Expr Struct FrBCode Crc FrBCommon FrRtu FrBin FrSpecB.
 From PM.Generated Require Import GenFramerB.
-From PM.proofs Require Import Crc_proofs FrB_witness_proofs FrB_rtu_proofs.
+From PM.proofs Require Import Crc_proofs FrB_witness_proofs FrB_rtu_proofs FrB_bin_proofs.
 Open Scope list_scope.
 Open Scope N_scope.
 
@@ -70,6 +70,30 @@ Theorem C06_rtu_mei_refuted :
   deliveries (rtu_feed cfg_client rtu_init [fa; firstn 9 mei; skipn 9 mei; fa; fa]) = [([3; 2; 0; 7], 1%Z)].
 Proof. exact rtu_mei_partial_witness. Qed.
 Print Assumptions C06_rtu_mei_refuted.
+
+(* binary, strongest true statement: for every list of chunks (empty ones included) in which
+   every read either leaves at most one byte of the next frame buffered or completes exactly
+   that frame — no byte of a following frame in the same read — ([bopr]) and delimiter-free
+   frames, every frame is delivered, in order, and no call raises.  Everything outside this
+   region is refuted below (incomplete-frame reset, advanceFrame skipping a byte, escaping). *)
+Theorem C06_binary_partial : forall cfg chunks b frames st,
+  b_buf st = b ->
+  Forall (fun f => valid_bframe cfg (fst f) (snd f)) frames ->
+  bopr b frames chunks ->
+  bin_feed_dels cfg st chunks = (map (fun f => (snd f, Z.of_N (fst f))) frames, map (fun _ => FOk) chunks).
+Proof. exact bin_chunked. Qed.
+Print Assumptions C06_binary_partial.
+
+Example C06_binary_nonvacuous :
+  let f := spec_adu_binary 1 [3; 0; 1; 0; 2] in
+  bopr [] [(1, [3; 0; 1; 0; 2]); (1, [3; 0; 1; 0; 2])] [[]; firstn 1 f; skipn 1 f; f; []].
+Proof. exact bopr_example. Qed.
+
+(* the while loop of the binary processIncomingPacket always terminates: the model's fuel
+   S(|buffer|) is never exhausted, for any state and chunk *)
+Theorem C06_binary_loop_terminates : forall cfg st chunk, snd (bin_recv cfg st chunk) <> FOutOfFuel.
+Proof. exact bin_recv_no_fuel_out. Qed.
+Print Assumptions C06_binary_loop_terminates.
 
 (* binary: refuted — a read ending inside a frame resets the receiver
    (finding F-C06-binary-incomplete-reset) *)
